@@ -50,3 +50,26 @@ class Ctx:
             file = str(where)
             line = getattr(node, "lineno", 0) if node is not None else 0
         return self.rep.ob(rule, kind, construct(where, text), ok, detail, file, line, nontrivial)
+
+
+    def import_obligations(self, rule: str, fn, *args, **kw) -> int:
+        """Evaluate rule function `fn` of another property and re-emit its obligations under `rule` of this one.
+
+        Used where one property structurally depends on another's obligations (the dependency is part of this
+        property's necessary conditions).  The construct key keeps the original rule id for traceability."""
+        from .report import Report
+
+        saved = self.rep
+        tmp = Report(saved.prop, saved.tier)
+        tmp.prop = getattr(fn, "__module__", "x").split(".")[-1].upper()
+        self.rep = tmp
+        try:
+            fn(self, *args, **kw)
+        finally:
+            self.rep = saved
+        for o in tmp.obs:
+            f, _, rest = o.construct.partition("::")
+            saved.ob(rule, o.kind, f"{f}::[{o.rule}] {rest}", o.ok, o.detail, o.file, o.line, o.nontrivial)
+        for e in tmp.analysis_errors:
+            saved.error(e)
+        return len(tmp.obs)
